@@ -31,6 +31,11 @@ def consume(b, x='a'):
     return [{'a': 'ConsumeFile', 'b': b, 'x': x}]
 
 
+def consume_fail(b):
+    """consumeFile with a source that does not exist"""
+    return [{'a': 'ConsumeFail', 'b': b}]
+
+
 def modify_p(v='v2'):
     return [{'a': 'ModifyP', 'v': v}]
 
@@ -100,7 +105,7 @@ def render(scripts):
 
 _NODE = re.compile(r'^(-?\d+) \[label="((?:[^"\\]|\\.)*)"(?:,tooltip="(?:[^"\\]|\\.)*")?(,style = filled)?\]')
 _EDGE = re.compile(r'^(-?\d+) -> (-?\d+) \[label="([^"]*)"')
-_ARGS = {'CreateBlob': ('b', 'c'), 'Rewrite': ('b', 'x'), 'Append': ('b', 'x'), 'ConsumeFile': ('b', 'x'),
+_ARGS = {'CreateBlob': ('b', 'c'), 'Rewrite': ('b', 'x'), 'Append': ('b', 'x'), 'ConsumeFile': ('b', 'x'), 'ConsumeFail': ('b',),
          'ModifyP': ('v',), 'Rollback': ('k',), 'OtherCommit': ('o', 'x'), 'UBegin': ('t',), 'Pack': ('T',)}
 
 
